@@ -76,6 +76,16 @@ def _check_unpack(arr, nbits, order, prefill, nb_type="int"):
     require(ret is pbuf, "pack:buffer-not-returned")
     require(np.array_equal(pbuf, arr), "pack:buffer-values",
             lambda: f"nbits={nbits} order={order} prefill={prefill} want={arr.tolist()} got={pbuf.tolist()}")
+    # results belong to the caller: a later call with other data of the same size must not change what an earlier
+    # call returned (no shared workspace handed out as the result)
+    if arr.size:
+        other_in = np.bitwise_xor(arr, np.uint8(0xFF))
+        other = bits.unpack(other_in.copy(), nbits, bitorder=order)
+        require(other is not got and np.array_equal(got, want), "unpack:earlier-result-changed-by-later-call",
+                lambda: f"nbits={nb_py} order={order} in={arr.tolist()}: the array returned first now holds {got.tolist()[:16]}")
+        other_p = bits.pack(np.zeros(want.size, dtype=np.uint8), nbits, bitorder=order)
+        require(other_p is not back and np.array_equal(back, arr), "pack:earlier-result-changed-by-later-call",
+                lambda: f"nbits={nb_py} order={order} in={arr.tolist()}")
     # independent numpy codec agrees too (guards the harness codec itself)
     assert np.array_equal(unpack_bits(arr.tobytes(), nb_py, order), want)
     assert pack_bits(want, nb_py, order) == arr.tobytes()
